@@ -84,9 +84,10 @@ def stepC (av : Avail) (st : St) : Cls → Except Err St
           useDef := st.useDef && !(splitVariants v).any (av.restrictions.contains ·)
           tests := st.tests ++ [(k, v)] }
   | .netsR k v =>
-    match netsBy av (netsOf k v) with
-    | .error e => .error e
-    | .ok names => .ok { st with netsStr := netsOf k v, pd := dictSet st.pd kNets (joinSp names) }
+    if (netsOf k v).isSome && st.explicitNets then .error .valueError
+    else match netsBy av (netsOf k v) with
+      | .error e => .error e
+      | .ok names => .ok { st with netsStr := netsOf k v, pd := dictSet st.pd kNets (joinSp names) }
   | .vmR vm k v =>
     .ok { st with
           vmNoDef := vm :: st.vmNoDef
@@ -96,7 +97,7 @@ def stepC (av : Avail) (st : St) : Cls → Except Err St
     if (splitComma v).all (av.vms.contains ·) then .ok { st with selVms := splitComma v } else .error .valueError
   | .nets v =>
     if st.netsStr.isSome then .error .valueError
-    else .ok { st with pd := dictSet st.pd kNets (commaToSpace v) }
+    else .ok { st with pd := dictSet st.pd kNets (commaToSpace v), explicitNets := true }
   | .other k v => .ok { st with pd := dictSet st.pd k (commaToSpace v) }
 
 theorem step_eq (av : Avail) (st : St) (a : Str) : step av st a = stepC av st (classify av a) := by
@@ -237,12 +238,12 @@ theorem classify_nets_iff {av : Avail} {a v : Str} :
       · intro hh; cases hh; exact absurd rfl hk
 
 theorem netsKey_obj (k : Str) (hk : netsKey k = true) : isObjKey k = true ∧ isTestKey k = false := by
-  simp only [netsKey, Bool.or_eq_true, List.isPrefixOf_iff_prefix] at hk
-  rcases hk with ⟨t, rfl⟩ | ⟨t, rfl⟩
-  · constructor <;> simp [isObjKey, isTestKey, kOnlyU, kOnlyNets, kOnly, kNo, kNoU]
-  · constructor <;> simp [isObjKey, isTestKey, kOnlyU, kNoNets, kOnly, kNo, kNoU]
+  simp only [netsKey, Bool.or_eq_true, beq_iff_eq] at hk
+  rcases hk with rfl | rfl
+  · exact ⟨by decide, by decide⟩
+  · exact ⟨by decide, by decide⟩
 
-/-- a nets restriction: key starts with `only_nets` / `no_nets` -/
+/-- a nets restriction: the key is `only_nets` / `no_nets` -/
 theorem classify_netsR_iff {av : Avail} {a k v : Str} :
     classify av a = .netsR k v ↔ splitArg a = some (k, v) ∧ netsKey k = true := by
   have hobj := @netsKey_obj
@@ -268,7 +269,7 @@ theorem classify_netsR_iff {av : Avail} {a k v : Str} :
       obtain ⟨h1, h2⟩ := hobj k hk
       simp [h1, h2, hk]
 
-/-- a vm restriction: key starts with `only_<vm>` / `no_<vm>` for the *first* such available vm -/
+/-- a vm restriction: the key is `only_<vm>` / `no_<vm>` for an available vm -/
 theorem classify_vmR_iff {av : Avail} {a vm k v : Str} :
     classify av a = .vmR vm k v ↔
       splitArg a = some (k, v) ∧ isTestKey k = false ∧ isObjKey k = true ∧ netsKey k = false ∧
@@ -400,6 +401,20 @@ def writes (av : Avail) (k : Str) (a : Str) : Bool :=
   | .netsR _ _ => kNets == k
   | _ => false
 
+theorem stepC_netsR_ok {av : Avail} {st st' : St} {k v : Str} (h : stepC av st (.netsR k v) = .ok st') :
+    ((netsOf k v).isSome && st.explicitNets) = false ∧ ∃ names, netsBy av (netsOf k v) = .ok names ∧
+      st' = { st with netsStr := netsOf k v, pd := dictSet st.pd kNets (joinSp names) } := by
+  simp only [stepC] at h
+  by_cases hc : ((netsOf k v).isSome && st.explicitNets) = true
+  · rw [if_pos hc] at h; cases h
+  · rw [if_neg hc] at h
+    cases hn : netsBy av (netsOf k v) with
+    | error e => rw [hn] at h; cases h
+    | ok names =>
+      rw [hn] at h
+      simp only [Except.ok.injEq] at h
+      exact ⟨by simpa using hc, names, rfl, h.symm⟩
+
 /-! ### loop invariants -/
 
 theorem stepC_ok_of_step {av : Avail} {st st' : St} {a : Str} (h : step av st a = .ok st') :
@@ -423,10 +438,9 @@ theorem loop_tests {av : Avail} : ∀ (args : List Str) (st st' : St), loop av s
       simp only [hc, stepC, Except.ok.injEq] at hs; subst hs
       simp [typedTests, primaryArg, hc, Bool.and_assoc]
     | netsR k v =>
-      simp only [hc, stepC] at hs
-      split at hs
-      · cases hs
-      · cases hs; simp [typedTests, primaryArg, hc]
+      rw [hc] at hs
+      obtain ⟨_, names, _, rfl⟩ := stepC_netsR_ok hs
+      simp [typedTests, primaryArg, hc]
     | vmR vm k v =>
       simp only [hc, stepC, Except.ok.injEq] at hs; subst hs
       simp [typedTests, primaryArg, hc]
@@ -509,15 +523,11 @@ theorem stepC_pd {av : Avail} (k : Str) : ∀ st st' c, stepC av st c = .ok st' 
   | bad => simp [stepC] at hs
   | test k' v => simp only [stepC, Except.ok.injEq] at hs; subst hs; rfl
   | netsR k' v =>
-    simp only [stepC] at hs
-    cases hn : netsBy av (netsOf k' v) with
-    | error e => simp [hn] at hs
-    | ok names =>
-      simp only [hn, Except.ok.injEq] at hs; subst hs
-      by_cases hk : kNets = k
-      · subst hk; simp [pdUpd, hn, dictGet_dictSet_same]
-      · have : (kNets == k) = false := by simpa using hk
-        simp [pdUpd, this, dictGet_dictSet_other _ _ _ _ hk]
+    obtain ⟨_, names, hn, rfl⟩ := stepC_netsR_ok hs
+    by_cases hk : kNets = k
+    · subst hk; simp [pdUpd, hn, dictGet_dictSet_same]
+    · have : (kNets == k) = false := by simpa using hk
+      simp [pdUpd, this, dictGet_dictSet_other _ _ _ _ hk]
   | vmR vm k' v => simp only [stepC, Except.ok.injEq] at hs; subst hs; rfl
   | badObj k' v => simp [stepC] at hs
   | vms v =>
@@ -586,10 +596,8 @@ theorem stepC_selVms {av : Avail} : ∀ st st' c, stepC av st c = .ok st' →
   | bad => simp [stepC] at hs
   | test k' v => simp only [stepC, Except.ok.injEq] at hs; subst hs; rfl
   | netsR k' v =>
-    simp only [stepC] at hs
-    split at hs
-    · cases hs
-    · cases hs; rfl
+    obtain ⟨_, names, _, rfl⟩ := stepC_netsR_ok hs
+    rfl
   | vmR vm k' v => simp only [stepC, Except.ok.injEq] at hs; subst hs; rfl
   | badObj k' v => simp [stepC] at hs
   | vms v =>
@@ -627,10 +635,8 @@ theorem stepC_vmLines {av : Avail} (vm : Str) : ∀ st st' c, stepC av st c = .o
   | bad => simp [stepC] at hs
   | test k' v => simp only [stepC, Except.ok.injEq] at hs; subst hs; exact ⟨rfl, rfl⟩
   | netsR k' v =>
-    simp only [stepC] at hs
-    split at hs
-    · cases hs
-    · cases hs; exact ⟨rfl, rfl⟩
+    obtain ⟨_, names, _, rfl⟩ := stepC_netsR_ok hs
+    exact ⟨rfl, rfl⟩
   | vmR vm' k' v =>
     simp only [stepC, Except.ok.injEq] at hs; subst hs
     constructor
@@ -721,10 +727,8 @@ theorem stepC_netsStr {av : Avail} : ∀ st st' c, stepC av st c = .ok st' →
   | bad => simp [stepC] at hs
   | test k' v => simp only [stepC, Except.ok.injEq] at hs; subst hs; rfl
   | netsR k' v =>
-    simp only [stepC] at hs
-    split at hs
-    · cases hs
-    · cases hs; rfl
+    obtain ⟨_, names, _, rfl⟩ := stepC_netsR_ok hs
+    rfl
   | vmR vm k' v => simp only [stepC, Except.ok.injEq] at hs; subst hs; rfl
   | badObj k' v => simp [stepC] at hs
   | vms v =>
@@ -758,6 +762,75 @@ theorem loop_netsStr_keep {av : Avail} : ∀ (mid : List Str) (st st' : St),
     | vms _ => rfl
     | nets _ => rfl
     | other _ _ => rfl
+
+/-! #### the explicit nets flag and a non-empty nets restriction -/
+
+theorem stepC_explicit {av : Avail} : ∀ st st' c, stepC av st c = .ok st' →
+    st'.explicitNets = (match c with | .nets _ => true | _ => st.explicitNets) := by
+  intro st st' c hs
+  cases c with
+  | bad => simp [stepC] at hs
+  | test k' v => simp only [stepC, Except.ok.injEq] at hs; subst hs; rfl
+  | netsR k' v =>
+    obtain ⟨_, names, _, rfl⟩ := stepC_netsR_ok hs
+    rfl
+  | vmR vm k' v => simp only [stepC, Except.ok.injEq] at hs; subst hs; rfl
+  | badObj k' v => simp [stepC] at hs
+  | vms v =>
+    simp only [stepC] at hs
+    split at hs
+    · cases hs; rfl
+    · cases hs
+  | nets v =>
+    simp only [stepC] at hs
+    split at hs
+    · cases hs
+    · cases hs; rfl
+  | other k' v => simp only [stepC, Except.ok.injEq] at hs; subst hs; rfl
+
+/-- once `nets=` was accepted the flag stays set -/
+theorem loop_explicit_mono {av : Avail} : ∀ (args : List Str) (st st' : St),
+    st.explicitNets = true → loop av st args = .ok st' → st'.explicitNets = true := by
+  intro args
+  induction args with
+  | nil => intro st st' he h; simp [loop] at h; subst h; exact he
+  | cons a as ih =>
+    intro st st' he h
+    obtain ⟨st1, hs, hl⟩ := loop_ok_cons.mp h
+    refine ih st1 st' ?_ hl
+    rw [stepC_explicit st st1 _ (stepC_ok_of_step hs)]
+    cases classify av a <;> simp [he]
+
+theorem netsOf_isSome {k v : Str} (hv : v ≠ []) : (netsOf k v).isSome = true := by
+  have : v.isEmpty = false := by simpa using hv
+  simp [netsOf, this]
+
+/-- arguments that do not withdraw the nets restriction (no `only_nets=`/`no_nets=` with an empty value)
+keep `nets_str` non-empty -/
+theorem loop_netsStr_some {av : Avail} : ∀ (mid : List Str) (st st' : St),
+    (∀ m ∈ mid, ∀ k, classify av m ≠ .netsR k []) → st.netsStr.isSome = true →
+    loop av st mid = .ok st' → st'.netsStr.isSome = true := by
+  intro mid
+  induction mid with
+  | nil => intro st st' _ hs h; simp [loop] at h; subst h; exact hs
+  | cons a as ih =>
+    intro st st' hm hsome h
+    obtain ⟨st1, hs, hl⟩ := loop_ok_cons.mp h
+    refine ih st1 st' (fun m hx => hm m (by simp [hx])) ?_ hl
+    rw [stepC_netsStr st st1 _ (stepC_ok_of_step hs)]
+    cases hc : classify av a with
+    | netsR k v =>
+      simp only
+      by_cases hv : v = []
+      · subst hv; exact absurd hc (hm a (by simp) k)
+      · exact netsOf_isSome hv
+    | bad => exact hsome
+    | test _ _ => exact hsome
+    | vmR _ _ _ => exact hsome
+    | badObj _ _ => exact hsome
+    | vms _ => exact hsome
+    | nets _ => exact hsome
+    | other _ _ => exact hsome
 
 /-! #### after the loop -/
 
